@@ -210,7 +210,7 @@ unsigned vx_lex_n; const char* vx_lex_start; const char* vx_lex_end;
 const char* g_buf; size_t g_len;            /* [g_buf, g_buf + g_len) */
 size_t g_k;                                  /* ghost-chosen index */
 #define VX_OFF(p) ((size_t)__CPROVER_POINTER_OFFSET(p))
-#define VX_MAXBUF 4096
+#define VX_MAXBUF 70000
 /* R7: every dereference of a buffer iterator is a read of the caller's buffer: must lie in [g_buf, g_buf+g_len) */
 static inline const char* vx_rd(const char* p) { __CPROVER_assert(__CPROVER_same_object(p, g_buf) && VX_OFF(p) < g_len, "VX_BUFFER read inside the caller's buffer"); return p; }
 const char* g_pos;                           /* ghost: the buffer position that ps_current_sp describes (C10) */
